@@ -167,20 +167,34 @@ def _is_restore(rd: ReachingDefs, n: Node, attr: str) -> bool:
     a = n.ast
     if not (isinstance(a, ast.Assign) and isinstance(a.value, ast.Name)):
         return False
-    ds = rd.reaching(a.value.id, n)
+    return _only_old_value(rd, n, a.value.id, attr, 0) is True
+
+
+def _only_old_value(rd: ReachingDefs, at: Node, name: str, attr: str, depth: int) -> Optional[bool]:
+    """True: `name` at `at` holds a value read from self.attr (directly or through
+    copies between locals) or None, and not only None; False: something else"""
+    if depth > 4:
+        return False
+    ds = rd.reaching(name, at)
     if not ds:
         return False
     some = False
     for d in ds:
         if d < 0:
             return False
-        da = rd.node_by_id[d].ast
+        dn = rd.node_by_id[d]
+        da = dn.ast
         if not (isinstance(da, ast.Assign) and len(da.targets) == 1 and isinstance(da.targets[0], ast.Name)):
             return False
         if is_self_attr(da.value, attr):
             some = True
         elif isinstance(da.value, ast.Constant) and da.value.value is None:
             continue
+        elif isinstance(da.value, ast.Name):
+            r = _only_old_value(rd, dn, da.value.id, attr, depth + 1)
+            if r is not True:
+                return False
+            some = True
         else:
             return False
     return some
@@ -213,11 +227,25 @@ def _check_override(ck, fi, cfg, rd, w: Node, attr: str):
             f"hyper-parameter self.{attr} is written on a fit/predict path and its previous value is not saved: get_params() changes",
         )
         return
-    # restores: self.attr = v for v in saved
+    # locals that receive a copy of a saved variable after the override (`replace = name`):
+    # they hold the old value too, provided every definition of theirs that can be
+    # met after the write is such a copy (or None)
+    carriers: Dict[str, Set[int]] = {}
+    reach_w = _reachable_from(w)
+    for n in cfg.nodes:
+        if n.id in reach_w and n.kind == "stmt" and isinstance(n.ast, ast.Assign) and len(n.ast.targets) == 1 and isinstance(n.ast.targets[0], ast.Name) and isinstance(n.ast.value, ast.Name) and n.ast.value.id in saved:
+            carriers.setdefault(n.ast.targets[0].id, set()).add(n.id)
+    for g in list(carriers):
+        for n in cfg.nodes:
+            if n.id in reach_w and g in defs_of_node(n) and n.id not in carriers[g]:
+                if not (isinstance(n.ast, ast.Assign) and isinstance(n.ast.value, ast.Constant) and n.ast.value.value is None):
+                    carriers.pop(g, None)
+                    break
+    # restores: self.attr = v for v in saved (or a carrier of a saved value)
     restores = set()
     for n in cfg.nodes:
         if n.kind == "stmt" and isinstance(n.ast, ast.Assign) and n is not w:
-            if any(is_self_attr(t, attr) for t in assign_targets(n.ast)) and isinstance(n.ast.value, ast.Name) and n.ast.value.id in saved:
+            if any(is_self_attr(t, attr) for t in assign_targets(n.ast)) and isinstance(n.ast.value, ast.Name) and (n.ast.value.id in saved or n.ast.value.id in carriers):
                 restores.add(n.id)
     # later redefinitions of a saved variable invalidate it
     reach_from_w = _reachable_from(w)
@@ -243,6 +271,16 @@ def _check_override(ck, fi, cfg, rd, w: Node, attr: str):
     if is_self_attr(w.ast.targets[0] if isinstance(w.ast, ast.Assign) else getattr(w.ast, "target", None)):
         pass
 
+    _hs_cache: Dict[Tuple[str, int], bool] = {}
+
+    def holds_saved(g: str, test: Node) -> bool:
+        """every path from the write to this test passes a copy `g = <saved>`"""
+        key = (g, test.id)
+        if key not in _hs_cache:
+            ok = g in carriers and paths_avoiding(cfg, w, {test.id}, set(carriers[g]), follow=lambda a_, lab_, b_: lab_ != "exc" or True) is None
+            _hs_cache[key] = ok
+        return _hs_cache[key]
+
     def follow(a: Node, lab: str, b: Node) -> bool:
         # path correlation: the saved variable holds the (truthy) old value on
         # every path from the write, so `if saved:` cannot take its false edge
@@ -263,9 +301,9 @@ def _check_override(ck, fi, cfg, rd, w: Node, attr: str):
             pol = True
             while isinstance(t, ast.UnaryOp) and isinstance(t.op, ast.Not):
                 t, pol = t.operand, not pol
-            if isinstance(t, ast.Name) and t.id in saved:
+            if isinstance(t, ast.Name) and (t.id in saved or holds_saved(t.id, a)):
                 return (lab == "true") == pol or lab == "exc"
-            if isinstance(t, ast.Compare) and len(t.ops) == 1 and isinstance(t.left, ast.Name) and t.left.id in saved and isinstance(t.comparators[0], ast.Constant) and t.comparators[0].value is None:
+            if isinstance(t, ast.Compare) and len(t.ops) == 1 and isinstance(t.left, ast.Name) and (t.left.id in saved or holds_saved(t.left.id, a)) and isinstance(t.comparators[0], ast.Constant) and t.comparators[0].value is None:
                 if isinstance(t.ops[0], (ast.IsNot, ast.NotEq)):
                     return (lab == "true") == pol or lab == "exc"
                 if isinstance(t.ops[0], (ast.Is, ast.Eq)):
